@@ -23,6 +23,9 @@ impl Engine for HbE2e {
                 let openok_delay: u64 = opt("openok-delay").and_then(|v| v.parse().ok()).unwrap_or(0);
                 let step_delay: u64 = opt("step-delay").and_then(|v| v.parse().ok()).unwrap_or(0);
                 let conn_timeout: Option<u64> = opt("timeout").and_then(|v| v.parse().ok());
+                // stall-tuneok=MS: the I/O thread is stalled for MS in its write of TuneOk + Open (so
+                // that the first timer expiry and the read of OpenOk fall into one poll batch)
+                broker::PARK_WRITE_AFTER_TUNE_MS.store(opt("stall-tuneok").and_then(|v| v.parse().ok()).unwrap_or(0), Ordering::SeqCst);
                 let (tail, tail_k): (Vec<u8>, usize) = match opt("tail") {
                     Some(v) => {
                         let mut it = v.split(',');
@@ -67,6 +70,7 @@ impl Engine for HbE2e {
                         return out.push("open hung".into());
                     }
                 };
+                broker::PARK_WRITE_AFTER_TUNE_MS.store(0, Ordering::SeqCst);
                 let opened_at = Instant::now();
                 out.push(format!("opened {}", t_open.elapsed().as_millis()));
                 let base_len = peer.written_len();
